@@ -21,7 +21,7 @@ THEOREMS = [
     "C16.twm_pending_on_fire",
     "C16.twm_fire_rule",
 ]
-RULE = ("timelines of 0..7 elements + terminal (completed/error/none; 12% non-conforming or with pre-subscription messages): bursts, gaps of exactly "
+RULE = ("20% of the non-mapper cases subscribe the SAME observable instance a second time (overlapping or later) and compare with a fresh single subscription; timelines of 0..7 elements + terminal (completed/error/none; 12% non-conforming or with pre-subscription messages): bursts, gaps of exactly "
         "d-1/d/d+1 ticks, elements at / around sampler ticks, terminal with a pending element, simultaneous arrivals; hot and cold sources; "
         "non-trivial = output differs from the source as seen (something was dropped, delayed or flushed)")
 ASSUMPTIONS = ["virtual time in integer ticks on TestScheduler; the operator's timers are armed inside on_next / after the source subscription, so a "
@@ -68,6 +68,10 @@ def cases(rng, tier):
                     sm.append([last + rng.choice([0, 5, 30]), ["E", "samplerErr"]])
                 msgs = T.gen_msgs(rng, 5, ticks[:3])
                 c["sampler"] = {"src": ssrc, "msgs": T.to_cold(sm) if ssrc == "cold" else sm}
+            if op not in ('throttle_with_mapper',):
+                t2 = T.gen_sub2(rng, msgs, p=0.2)
+                if t2 is not None:
+                    c["sub2"] = t2          # the same observable instance subscribed again: state must be per subscription
             c["msgs"] = T.to_cold(msgs) if src == "cold" else msgs
             yield c
 
@@ -172,7 +176,7 @@ def expected(case):
         return out
     if op == "throttle_with_mapper":
         # the pending element is emitted when ITS throttle observable first signals (emits or completes)
-        ev = T.merged_events([[[t, ("src", n)] for t, n in src]] + T.elem_streams(src, case["inners"]))
+        ev = T.merged_events([T.src_stream(src, case["inners"])] + T.elem_streams(src, case["inners"]))
         out, pending, k = [], None, 0
         for t, e in ev:
             if e[0] == "src":
@@ -201,7 +205,7 @@ def oracle(case, io):
     exp = expected(case)
     if fw.key(exp) != fw.key(io["out"]):
         return f"{case['op']}: expected {exp} got {io['out']}"
-    return None
+    return T.second_sub_oracle(case, io)
 
 
 def nontrivial(case, io):
@@ -210,6 +214,7 @@ def nontrivial(case, io):
 
 def bucket(case, io):
     yield from T.shape(case, io)
+    yield f"{case['op']}:second-subscription={'sub2' in case}"
     s = T.seen(case)
     if case["op"] in ("debounce", "debounce_alias", "throttle_first") and "d" in case:
         gaps = {b[0] - a[0] for a, b in zip(s, s[1:])}
@@ -217,13 +222,17 @@ def bucket(case, io):
         yield f"{case['op']}:gap==0:{0 in gaps}"
     if case["op"] == "throttle_with_mapper":
         yield f"twm:raise_at={case['raise_at']}"
-        yield f"twm:first-signals={sorted({(T.conform(tl)[0][1][0] if tl else '-') for tl in case['inners']})}"
+        yield f"twm:first-signals={sorted({('inline' if isinstance(tl, dict) else T.conform(tl)[0][1][0] if tl else '-') for tl in case['inners']})}"
     if case["op"] == "sample":
         yield f"sample:element-at-tick={any((t - SUB) % case['period'] == 0 for t, n in s)}"
 
 
 def shrink(case):
     yield from T.shrink_msgs(case)
+    if "sub2" in case:
+        c = dict(case)
+        del c["sub2"]
+        yield c
 
 
 LEVEL_TEXT = ('Lean theorems, for all timelines (no bound, no sortedness needed), due times and element types: the handler-level models of throttle_first (last_on_next fold), debounce (id / has_value / value + Serial timer with the (due,seq) tie rule inlined) and sample (latest / has_value / at_end against an arbitrary list of sampler events) equal the declarative rules of the property text (window rule; emit iff the next source notification is later than t+d, flush at completion, drop at error; latest not-yet-sampled element at each tick); throttle_with_mapper as a trace machine equals the pending-element rule on every event interleaving. Tied to the code by differential runs on TestScheduler (hot/cold sources, gaps exactly d, bursts, terminal with a pending element, sampler as interval or observable) and by oracles written from the property text.')
